@@ -139,7 +139,10 @@ class C11:
                 kw["extra_info"] = {"x-custom": {"b": 2, "a": [1, 2]}, "zz": "end", "0first": 1, "source": "S",
                                     "private": 1}
                 kw["extra_top"] = {"created by": "ref", "creation date": 1, "nodes": [["h", 1]], "zzz": {"y": 1},
-                                   "encoding": "UTF-8", "comment.utf-8": "c", "publisher": "p", "httpseeds": ["http://h/s"]}
+                                   "encoding": "UTF-8", "comment.utf-8": "c", "publisher": "p", "httpseeds": ["http://h/s"],
+                                   # the byte sequence '4:info' ahead of the real info dictionary: as a key of another
+                                   # dictionary, and as the start of a 14-byte string
+                                   "generator": {"info": "mkmeta 2.1", "version": 2}, "comment": "info: see docs"}
                 # keys other clients add next to the real ones: none of them replaces 'name', the trackers or the seeds
                 kw["extra_info"].update({"name.utf-8": "ANOTHER name.utf-8 " + name, "publisher-url": "http://p/",
                                          "md5sum": "0" * 32, "display name": "dn", "ws": "http://not/a/seed"})
@@ -400,6 +403,8 @@ class C12:
             for d in (-3, -2, -1, 0, 1, 2, 3):
                 vals.append((1 << k) + d)
             vals.append(3 << k)
+            vals.append(-(1 << k))              # the mirror images: one bit set, wrong sign
+            vals.append(-(1 << k) + 1)
         for _ in range(400 if tier == "quick" else 4000):
             vals.append(rng.getrandbits(64))
             vals.append(-rng.getrandbits(40))
@@ -421,7 +426,8 @@ class C12:
             cases.append({"kind": "strs", "values": strs[i:i + 400]})
         # creation routes
         rvals = [13, 14, 15, 20, 25, 26, 29, 30, 31, 32, 64, 100, 1024, 8192, 16383, 16384, 16385, 16395, 24576,
-                 32768, 49152, 65536, 65537, 131072, 2 ** 20, 2 ** 20 + 1, 2 ** 24, 2 ** 26, 1, 2, 0, -14, -16384]
+                 32768, 49152, 65536, 65537, 131072, 2 ** 20, 2 ** 20 + 1, 2 ** 24, 2 ** 26, 1, 2, 0, -14, -16384,
+                 -32768, -(2 ** 20), -(2 ** 40)]
         rvals += [rng.randint(1, 2 ** 20) for _ in range(20 if tier == "quick" else 200)]
         rvals += [(1 << rng.randint(5, 26)) + rng.choice([0, 0, 1, -1]) for _ in range(20 if tier == "quick" else 200)]
         rstrs = ["abc", "", "²", "14.0", " 15", "+16", "016", "١٤", "1e5",
@@ -673,7 +679,9 @@ SAFE_URLS = ["http://tracker.example.com/announce", "udp://t1.example.org:6969/a
              "https://example.net:443/ann?key=1&x=y", "http://ex.com/a+b", "http://exämple.com/ä",
              "udp://[::1]:80/announce", "http://x.y/#frag", "http://h/p=q", "wss://tracker.example/socket",
              "ftp://ftp.example.site/content", "http://h/a:b"]
-SAFE_WORDS = ["hello", "a comment with spaces", "Ünï cødé", "x", "SRC", "k=v", "semi;colon", "日本語", "a:b", "[x]"]
+SAFE_WORDS = ["hello", "a comment with spaces", "Ünï cødé", "x", "SRC", "k=v", "semi;colon", "日本語", "a:b", "[x]",
+              # characters an ini reader may give a meaning of their own when they follow a blank
+              "Release #3 ; final", "a ;b", "x # y", "100% done", "%(name)s", "$HOME", "tail = value", "colon: value"]
 
 
 def _c20_argv(case, path, out):
@@ -772,9 +780,9 @@ def _c20_ini(case, out):
     elif case.get("ini_private_false"):
         lines.append("private = false")
     if o.get("source") is not None:
-        lines.append(f"source = {o['source']}")
+        lines.append("source = " + o["source"].replace("%", "%%"))     # the ini spelling of a literal per cent sign
     if o.get("comment") is not None:
-        lines.append(f"comment = {o['comment']}")
+        lines.append("comment = " + o["comment"].replace("%", "%%"))
     if o.get("piece_length") is not None:
         lines.append(f"piece-length = {o['piece_length']}")
     if o.get("meta_version") is not None:
